@@ -224,17 +224,19 @@ def build(cfg, ctx):
 
 def np_seed_for(cfg):
     import hashlib, json
-    return int(hashlib.sha1(json.dumps(engine.jsonable(cfg), sort_keys=True).encode()).hexdigest()[:8], 16)
+    c = {k: v for k, v in cfg.items() if k != "failpoint"}  # a failpoint run shares the random directions of its reference
+    return int(hashlib.sha1(json.dumps(engine.jsonable(c), sort_keys=True).encode()).hexdigest()[:8], 16)
 
 
-def run_cfg(cfg, ctx=None, timeout=60, **over):
+def run_cfg(cfg, ctx=None, timeout=60, built=None, **over):
     ctx = ctx or engine.Ctx()
-    b = build(cfg, ctx)
+    b = built if built is not None else build(cfg, ctx)
     kw = dict(b.kw)
     kw.update(over)
     # dfols draws from numpy's GLOBAL generator for growing / random / momentum directions: seed it from the configuration so that
     # a run - and therefore a replay - is a function of its cfg alone
     np.random.seed(np_seed_for(cfg))
+    engine.apply_failpoint(ctx, cfg.get("failpoint"))
     run = engine.run_solve(b.objfun, b.x0.copy(), ctx=ctx, timeout=timeout, faults=b.faults, persistent=b.persistent,
                            solve_kwargs=kw)
     run.built = b
